@@ -3,6 +3,7 @@
 -/
 import Rl2tp.Proofs.Options
 import Rl2tp.Proofs.SpecBridge
+import Rl2tp.Proofs.GenTables
 namespace Rl2tp.C14
 
 /-- accepted under stronger options ⇒ accepted with the same value (and the same remaining input)
@@ -179,5 +180,17 @@ theorem checked_bits_are_masks (x y : UInt8) :
     isPrioritized (word16 x y) = (x &&& 0x80 != 0) ∧ hasOffset (word16 x y) = (x &&& 0x40 != 0) := by
   obtain ⟨_, _, _, h4, h5, h6, h7⟩ := Spec.flags_eq x y
   exact ⟨h7.symm, h6.symm, h5.symm, h4.symm⟩
+
+/-! ### the bit numbers as they stand in /repo's `flags.rs` *now* (re-read by `bin/gentables` on every run) -/
+
+/-- the `get_bit(n)` / `set_bit(n)` numbers of the five flag accessors, the reserved-bit list and the version field's
+    shift and mask in the source are the ones the model's accessors use -/
+theorem source_flag_bits (w : UInt16) :
+    (isControl w = fbit w (GenTables.bitOf "T") ∧ hasLength w = fbit w (GenTables.bitOf "L") ∧
+      hasNsNr w = fbit w (GenTables.bitOf "S") ∧ hasOffset w = fbit w (GenTables.bitOf "O") ∧
+      isPrioritized w = fbit w (GenTables.bitOf "P")) ∧
+    reservedOk w = Gen.reservedBits.all (fun i => !fbit w i) ∧
+    version w = UInt8.ofNat (w.toNat / 2 ^ Gen.versionShift % (Gen.versionMask + 1)) :=
+  ⟨GenTables.flag_bits_is_model w, GenTables.reserved_bits_is_model w, GenTables.version_field_is_model w⟩
 
 end Rl2tp.C14
